@@ -36,6 +36,8 @@ let () =
     Printf.printf "S %d %s\n" id (if analyze_m15 script then "1" else "0");
     (* N: the script the planners got is norm_script of the script as written (groupByNothing of the reader's entry point) *)
     Printf.printf "N %d %s\n" id (if norm_script script0 = script then "1" else "0");
+    (* B: every WRef of the planner model's tree carries the query its alias is bound to in the statement's WITH list *)
+    Printf.printf "B %d %s\n" id (if model_wrefs_bound script ctx then "1" else "0");
     (match tree with
      | Some t -> Printf.printf "T %d %s\n" id (match impl_text script ctx t with Some x -> hex_of_chars x | None -> "-")
      | None -> Printf.printf "T %d model\n" id);
